@@ -2197,6 +2197,7 @@ Proof.
     + apply inert_wprint.
     + rewrite print_let. constructor; [apply inert_esc; cbv; congruence|]. constructor; [apply inert_mname|]. constructor; [apply inert_other|].
       constructor; [apply inert_mname|constructor].
+    + constructor; [apply inert_esc; cbv; congruence|]. constructor; [apply inert_mname|]. constructor; [apply inert_mname|constructor].
     + constructor; [|constructor]. apply inert_esc. unfold setname, sname. destruct b; cbn; congruence.
     + constructor; [apply inert_esc; cbv; congruence|]. constructor; [apply inert_esc; unfold ifname, sname; congruence|constructor].
     + constructor; [apply inert_esc; cbv; congruence|apply inert_cname_arg].
@@ -2299,6 +2300,7 @@ Section Subst.
       + cbn [fb_node] in H. apply andb_true_iff in H as [H1 H2]. apply Nat.leb_le in H1, H2. split.
         * rewrite print_param. apply xp_param. lia.
         * apply nth_args_A.
+      + split; [|reflexivity]. cbn [sbn print]. rewrite app_nil_r. apply xp_toks. constructor; [apply inert_esc; cbv; congruence|]. constructor; [apply inert_mname|]. constructor; [apply inert_mname|constructor].
       + split; [|reflexivity]. cbn [sbn print]. rewrite app_nil_r. apply xp_tok, inert_esc.
         unfold setname, sname. destruct b; cbn; congruence.
       + split; [|reflexivity]. cbn [sbn print]. rewrite app_nil_r. apply xp_toks.
@@ -2465,6 +2467,7 @@ Section Subst.
       + cbn [fi_node] in H. split.
         * cbn [sbn map low1 printb]. rewrite app_nil_r, printb_param. apply X_par2.
         * cbn [sbn map low1 forallb fb_node]. now rewrite H.
+      + split; [|reflexivity]. cbn [sbn map low1 printb]. rewrite app_nil_r. apply X_toks. constructor; [apply inert_esc; cbv; congruence|]. constructor; [apply inert_mname|]. constructor; [apply inert_mname|constructor].
       + split; [|reflexivity]. cbn [sbn map low1 printb]. rewrite app_nil_r. apply X_tok, inert_esc.
         unfold setname, sname. destruct b; cbn; congruence.
       + split; [|reflexivity]. cbn [sbn map low1 printb]. rewrite app_nil_r. apply X_toks.
@@ -3995,6 +3998,156 @@ Theorem engine_simulates_F3 fuel p e out :
     (forall id, findm (mname id) (bottom st') = option_map mean_of (alookup id (last (frames e) []))) /\
     (forall k, (forall id, k <> mname id) -> swkey k = false -> findm k (bottom st') = findm k base_frame).
 Proof. exact (engine_simulates_F2 fuel p e out). Qed.
+
+(* ============================================================================================== *)
+(* Delimited parameters in the engine, at token level (MacroSpec's parameter texts: literal prefix,  *)
+(* undelimited and delimited parameters; calls written with the braces { } the Tokenizer makes).     *)
+(* Not part of run . print = den: the program printer has no delimiters.                            *)
+(* ============================================================================================== *)
+Fixpoint render_args_bg (l : list pkind) (args : list (list tok)) : list tok :=
+  match l, args with
+  | k :: r, a :: ar =>
+      match k with
+      | PU => bg :: a ++ eg :: render_args_bg r ar
+      | PD d more => a ++ d :: more ++ render_args_bg r ar
+      end
+  | _, _ => []
+  end.
+Definition render_call_bg (p : pattern) (args : list (list tok)) : list tok := pre p ++ render_args_bg (ps p) args.
+Definition pendb (p : option (list tok)) : list tok := match p with Some a => bg :: a ++ [eg] | None => [] end.
+
+Lemma read_argument_bal a rest : balanced a = true -> read_argument (bg :: a ++ eg :: rest) = (Some a, rest).
+Proof. intros Hb. apply read_argument_bg. unfold balanced in Hb. destruct (depth_after a O) as [[|n]|]; try discriminate; reflexivity. Qed.
+
+Lemma match_params_bg l : forall i args params pend rest,
+  call_ok l args = true -> pend_ok pend = true -> (i + length l <= 10)%nat ->
+  match_pattern (render_params i l) false (pend_flag pend) params (pendb pend ++ render_args_bg l args ++ rest) =
+  MOk (rev params ++ pend_list pend ++ map Some args) rest.
+Proof.
+  induction l as [|k l IH]; intros i args params pend rest Hok Hp Hi.
+  - destruct args; [|discriminate]. cbn [render_params render_args_bg app map]. rewrite app_nil_r.
+    destruct pend as [a0|]; cbn [pend_flag pendb pend_list match_pattern].
+    + cbn [pend_ok] in Hp. change ((bg :: a0 ++ [eg]) ++ rest) with (bg :: (a0 ++ [eg]) ++ rest).
+      rewrite <- app_assoc. cbn [app]. rewrite (read_argument_bal a0 rest Hp). cbn [rev]. reflexivity.
+    + now rewrite app_nil_r.
+  - destruct args as [|a args]; [destruct k; discriminate|].
+    cbn [length] in Hi. cbn [render_params]. rewrite mp_hash_digit by lia.
+    assert (Hstep : forall r' tail,
+              (if pend_flag pend then let '(x, s') := read_argument (pendb pend ++ tail) in match_pattern r' false true (x :: params) s'
+               else match_pattern r' false true params (pendb pend ++ tail)) =
+              match_pattern r' false true (pend_list pend ++ params) tail).
+    { intros r' tail. destruct pend as [a0|]; cbn [pend_flag pendb pend_list app]; [|reflexivity].
+      cbn [pend_ok] in Hp. rewrite <- app_assoc. cbn [app]. now rewrite (read_argument_bal a0 tail Hp). }
+    rewrite Hstep. clear Hstep.
+    assert (Hrev : forall tl, rev (pend_list pend ++ params) ++ tl = rev params ++ pend_list pend ++ tl).
+    { intros tl. destruct pend; cbn [pend_list app rev]; [now rewrite <- app_assoc | reflexivity]. }
+    destruct k as [|d more].
+    + cbn [call_ok] in Hok. apply andb_true_iff in Hok. destruct Hok as (Hb & Hok).
+      cbn [delim app render_args_bg].
+      assert (E : (bg :: a ++ eg :: render_args_bg l args) ++ rest = pendb (Some a) ++ render_args_bg l args ++ rest).
+      { cbn [pendb app]. rewrite <- !app_assoc. reflexivity. }
+      change (bg :: (a ++ eg :: render_args_bg l args) ++ rest) with ((bg :: a ++ eg :: render_args_bg l args) ++ rest).
+      rewrite E. change true with (pend_flag (Some a)).
+      rewrite (IH (S i) args (pend_list pend ++ params) (Some a) rest Hok) by (assumption || lia).
+      cbn [pend_list map app]. rewrite Hrev. reflexivity.
+    + cbn [call_ok] in Hok. repeat (apply andb_true_iff in Hok; destruct Hok as (Hok & ?)).
+      cbn [delim render_args_bg]. rewrite <- !app_comm_cons. rewrite mp_delim by assumption.
+      rewrite <- !app_assoc. cbn [app].
+      match goal with H : forallb (fun t => negb (tok_eqb t d)) a = true |- _ => rewrite (read_until_spec d a [] _ H) end.
+      cbn [rev app]. rewrite <- ?app_assoc.
+      match goal with H : forallb lit_ok more = true |- _ => rewrite (lits_consumed more _ _ _ H) end.
+      change false with (pend_flag None) at 2. change (render_args_bg l args ++ rest) with (pendb None ++ render_args_bg l args ++ rest).
+      match goal with H : call_ok l args = true |- _ => rewrite (IH (S i) args (Some a :: pend_list pend ++ params) None rest H) by (reflexivity || lia) end.
+      cbn [pend_list map app rev]. rewrite <- app_assoc. cbn [app]. rewrite Hrev. reflexivity.
+Qed.
+
+Lemma match_roundtrip_bg p args rest :
+  pattern_ok p = true -> call_ok (ps p) args = true ->
+  match_pattern (render_pattern p) false false [None] (render_call_bg p args ++ rest) = MOk (None :: map Some args) rest.
+Proof.
+  intros Hp Hc. unfold pattern_ok in Hp. apply andb_true_iff in Hp. destruct Hp as (Hpre & Hn). apply Nat.leb_le in Hn.
+  unfold render_pattern, render_call_bg. rewrite <- app_assoc. rewrite (lits_consumed (pre p) _ _ _ Hpre).
+  change false with (pend_flag None) at 2. change (render_args_bg (ps p) args ++ rest) with (pendb None ++ render_args_bg (ps p) args ++ rest).
+  rewrite (match_params_bg (ps p) 1 args [None] None rest Hc) by (reflexivity || lia).
+  reflexivity.
+Qed.
+
+(* one iteration of the engine on a call of a \def macro with delimited parameters *)
+Lemma engine_delimited_call nx g nm p b args rest U B :
+  pattern_ok p = true -> call_ok (ps p) args = true -> body_ok false b = true -> render_pattern p <> [] ->
+  chain_get U B nm = Some (MDef (render_pattern p) (render_body b)) ->
+  iter_step nx g (St (Tok CC_ESCAPE nm :: render_call_bg p args ++ rest) U B) = Ret (SCont (St (subst_body args b ++ rest) U B)).
+Proof.
+  intros Hp Hc Hb Hne Hlk.
+  rewrite (step_macro nx g (Tok CC_ESCAPE nm) nm (MDef (render_pattern p) (render_body b)) _ U B eq_refl eq_refl Hlk).
+  cbn [invoke input]. unfold definition_invoke. destruct (render_pattern p) eqn:E; [contradiction|]. rewrite <- E.
+  rewrite (match_roundtrip_bg p args rest Hp Hc), (expand_def_subst b false args Hb). reflexivity.
+Qed.
+
+(* \def itself on such a parameter text: nothing in it is a brace, it does not begin with a blank *)
+Lemma has_nested_lits l r : forallb lit_ok l = true -> has_nested (l ++ r) = has_nested r.
+Proof.
+  induction l as [|t l IH]; intros H; [reflexivity|]. cbn [forallb] in H. apply andb_true_iff in H as [Ht Hl].
+  unfold lit_ok in Ht. apply negb_true_iff in Ht. cbn [app has_nested]. rewrite Ht. now apply IH.
+Qed.
+Lemma has_nested_params l : forall i args, call_ok l args = true -> has_nested (render_params i l) = false.
+Proof.
+  induction l as [|k l IH]; intros i args H; [reflexivity|]. destruct args as [|a args]; [destruct k; discriminate H|].
+  cbn [render_params has_nested]. change (is_param hash_tok) with true. cbn iota. change (is_param (digit_tok i)) with false. cbn iota.
+  destruct k as [|d more]; cbn [call_ok] in H.
+  - apply andb_true_iff in H as [_ H]. cbn [delim app]. now apply (IH (S i) args).
+  - repeat (apply andb_true_iff in H; destruct H as (H & ?)). cbn [delim].
+    rewrite (has_nested_lits (d :: more)); [now apply (IH (S i) args)|]. cbn [forallb]. apply andb_true_iff. split; assumption.
+Qed.
+Lemma ros_head l : match l with t :: _ => is_space t = false | [] => True end -> read_optional_spaces l = l.
+Proof. destruct l as [|t l]; intros H; [reflexivity|]. cbn [read_optional_spaces]. now rewrite H. Qed.
+
+Lemma def_invoke_pattern gl nm p body args tl U B :
+  pattern_ok p = true -> call_ok (ps p) args = true ->
+  forallb (fun t => negb (is_bgroup t)) (render_pattern p) = true ->
+  match render_pattern p with t :: _ => is_space t = false | [] => True end ->
+  depth_after body O = Some O ->
+  def_invoke gl (St (Tok CC_ESCAPE nm :: render_pattern p ++ bg :: body ++ eg :: tl) U B)
+  = Ret (push_tok (prim_elem (PDef gl)) ((if gl then add_global else add_local) nm (MDef (render_pattern p) body) (St tl U B))).
+Proof.
+  intros Hp Hc Hnb Hsp Hb. unfold def_invoke, ros. cbn [input read_optional_spaces].
+  change (is_space (Tok CC_ESCAPE nm)) with false. cbn iota. unfold set_input. cbn [input ups bottom].
+  assert (Hros : read_optional_spaces (render_pattern p ++ bg :: body ++ eg :: tl) = render_pattern p ++ bg :: body ++ eg :: tl).
+  { apply ros_head. destruct (render_pattern p) as [|t l]; [reflexivity|exact Hsp]. }
+  rewrite Hros.
+  assert (HnbF : Forall (fun t => is_bgroup t = false) (render_pattern p)).
+  { apply Forall_forall. intros t Ht. rewrite forallb_forall in Hnb. specialize (Hnb t Ht). now apply negb_true_iff in Hnb. }
+  rewrite (read_args_nobg _ [] _ HnbF). cbn [rev app input ups bottom read_optional_spaces].
+  change (is_space bg) with false. cbn iota.
+  unfold read_token. change (is_bgroup bg) with true. cbn iota.
+  rewrite (read_group_app body O [] (eg :: tl) O Hb). cbn [read_group]. change (is_bgroup eg) with false. change (is_egroup eg) with true. cbn iota.
+  rewrite app_nil_r, rev_involutive.
+  assert (Hnest : has_nested (render_pattern p) = false).
+  { unfold pattern_ok in Hp. apply andb_true_iff in Hp as [Hpre _]. unfold render_pattern. rewrite (has_nested_lits _ _ Hpre).
+    now apply (has_nested_params (ps p) 1 args). }
+  rewrite Hnest. reflexivity.
+Qed.
+
+(* \def\nm<parameter text>{<body>} followed by a conforming call \nm<arguments>: the engine defines the macro, yields the \def
+   instance, and replaces the call by the body with every #k replaced by the k-th argument; the text after the call is untouched *)
+Theorem engine_delimited_parameters p b args rest nm :
+  pattern_ok p = true -> call_ok (ps p) args = true -> body_ok false b = true -> render_pattern p <> [] ->
+  forallb (fun t => negb (is_bgroup t)) (render_pattern p) = true ->
+  match render_pattern p with t :: _ => is_space t = false | [] => True end ->
+  depth_after (render_body b) O = Some O ->
+  exec (init (esc s_def :: Tok CC_ESCAPE nm :: render_pattern p ++ bg :: render_body b ++ eg ::
+              Tok CC_ESCAPE nm :: render_call_bg p args ++ rest))
+       [prim_elem (PDef false)]
+       (St (subst_body args b ++ rest) [] ((nm, MDef (render_pattern p) (render_body b)) :: base_frame)).
+Proof.
+  intros Hp Hc Hb Hne Hnb Hsp Hbal. unfold init. eapply (ex_cont O).
+  - rewrite (step_macro _ _ (esc s_def) s_def (MPrim (PDef false)) _ [] base_frame eq_refl eq_refl eq_refl).
+    cbn [invoke]. rewrite (def_invoke_pattern false nm p (render_body b) args _ [] base_frame Hp Hc Hnb Hsp Hbal). reflexivity.
+  - unfold add_local, add_global, push_tok, set_input, set_bottom. cbn [ups bottom input].
+    eapply (ex_yield O); [apply step_elem; reflexivity|].
+    eapply (ex_cont O); [|apply ex_refl].
+    apply (engine_delimited_call _ _ nm p b args rest [] _ Hp Hc Hb Hne). cbn [chain_get findm]. now rewrite seqb_refl.
+Qed.
 
 (* ============================================================================================== *)
 (* Engine frames refine Model/Context.v (C04): for every injective coding of macro names by numbers *)
